@@ -75,7 +75,7 @@ Case wire_case(Rng& r, int param, const Case& keymsg, const char* weights_for) {
     d -= tab[i].w;
   }
   Case c = keymsg;
-  c.set("op", "verify").set("param", param).set("surf", (int64_t)r.below(2)).set("node", pick_node(r)).set("wf", wf);
+  c.set("op", "verify").set("param", param).set("surf", (int64_t)r.below(3)).set("node", pick_node(r)).set("wf", wf);
   c.setu("bit", r.next() >> 8).setu("n", r.next() >> 40).setu("at", r.next() >> 30).setu("which", r.next() >> 30).setu("wseed", r.next() >> 20);
   c.setu("nflips", r.below(6));
   std::string w = wf;
@@ -259,6 +259,14 @@ void gen_c04(Plan& p, bool thorough) {
     c.erase("node");
     p.tasks[0].push_back(c);
   }
+  // in-process differential at volume (reference pass only executes it; the other passes skip it)
+  for (int i = 0; i < (thorough ? 24 : (COST[prim] > 9 ? 4 : COST[prim] > 4 ? 8 : 16)); i++) {
+    Rng ro = rng_for(p.seed, {H("C04"), p.run, H("signdiff"), (uint64_t)i});
+    Case c = sign_case(ro, prim, "");
+    c.set("op", "signdiff").set("mlen", (int64_t)ro.below(40));
+    c.erase("node");
+    p.tasks[0].push_back(c);
+  }
 }
 void gen_c05(Plan& p, bool thorough) {
   Rng r = rng_for(p.seed, {H("C05"), p.run});
@@ -287,7 +295,7 @@ void gen_c05(Plan& p, bool thorough) {
         c.set("padf", (int64_t)(1 + ro.below(7))).set("padv", (int64_t)(1 + ro.below(127)));
     } else {
       c = km;
-      static const std::vector<std::string> ffs = {"trunc", "prefix", "flip", "extend", "pk", "arbitrary", "none", "zerowin", "zerowin", "reroll"};
+      static const std::vector<std::string> ffs = {"trunc", "prefix", "flip", "extend", "pk", "arbitrary", "none", "zerowin", "zerowin", "reroll", "foreign"};
       static const std::vector<std::string> pvs = {"zero", "one", "max", "smlen", "smlen-3", "smlen-4", "wrap", "d"};
       static const std::vector<std::string> ovs = {"disjoint", "disjoint", "same", "plus4", "inside"};
       c.set("op", "nist").set("param", prim).set("sub", "open").set("ff", ro.pick(ffs)).set("pv", ro.pick(pvs)).set("overlap", ro.pick(ovs));
@@ -434,13 +442,15 @@ void gen_c10(Plan& p, bool thorough) {
       c.set("node", i ? "sse2" : "avx2");
       p.tasks[0].push_back(c);
     }
-  if (pp.kkw || pp.r == 4) // full-S-box instances: the aux / recording paths at volume, judged by the signer's own consistency check
-    for (int i = 0; i < (thorough ? 40 : (COST[prim] > 9 ? 6 : 16)); i++) {
-      Rng ro = rng_for(p.seed, {H("C10"), p.run, H("signok"), (uint64_t)i});
-      Case c = sign_case(ro, prim, "signok");
-      c.set("mlen", (int64_t)ro.below(40));
-      p.tasks[0].push_back(c);
-    }
+  // the aux / recording / MPC paths at volume: the same input signed on the AVX2 and on the SSE2 node must give the same
+  // bytes (and the signer's own consistency check must pass); no model signature needed
+  for (int i = 0; i < (thorough ? 40 : (COST[prim] > 9 ? 5 : COST[prim] > 4 ? 8 : 16)); i++) {
+    Rng ro = rng_for(p.seed, {H("C10"), p.run, H("signdiff"), (uint64_t)i});
+    Case c = sign_case(ro, prim, "");
+    c.set("op", "signdiff").set("mlen", (int64_t)ro.below(40));
+    c.erase("node");
+    p.tasks[0].push_back(c);
+  }
   {
     Case b;
     for (int rep = 0; rep < (thorough ? 2 : 1); rep++) {
@@ -797,7 +807,7 @@ void gen_c16(Plan& p, bool thorough) {
   if (r.chance(1, 4))
     km.set("mlen", 0);
   static const std::vector<std::string> ovs = {"disjoint", "same", "plus4", "inside"};
-  static const std::vector<std::string> ffs = {"none", "none", "trunc", "prefix", "flip", "extend", "pk", "arbitrary", "zerowin", "reroll"};
+  static const std::vector<std::string> ffs = {"none", "none", "trunc", "prefix", "flip", "extend", "pk", "arbitrary", "zerowin", "reroll", "foreign", "foreign"};
   static const std::vector<std::string> pvs = {"zero", "one", "max", "smlen", "smlen-3", "smlen-4", "wrap", "d", "d", "d"};
   {
     Case c;
